@@ -24,7 +24,8 @@ META = {
     "order), c34_format_chunks/_format_defined/_s_decode (i-th format chunk renders the i-th field, packed strings, "
     "concatenation), c34_error_cycle/c34_error_stops (first ERROR-level firing ends the run, nothing afterwards) are "
     "proved for every record list and history; the model is tied to the code by comparing, per cycle, the messages "
-    "(record, level, logger, text) emitted through Python logging by the real process, and the failing cycle",
+    "(record, level, logger, text = LogRecord.getMessage() as a handler sees it; a raising getMessage is the observation "
+    "`record lost`) emitted through Python logging by the real process, and the failing cycle",
     "level_note": "PARTIAL by design: Python's format mini-language is NOT modelled - `format(value, spec)` for a single "
     "value is a parameter (`Render`) of every theorem and is tabulated by the harness with Python's own format() for the "
     "Lean driver; what is proved is selection, order, field-chunk pairing, `s` decoding, concatenation and the stop. The "
@@ -676,7 +677,7 @@ def run(ctx: Check):
         "registered through log/debug/info/warning/error/assertion and their top_* / module-level variants inside nested "
         "If/Elif/Else, transaction bodies and method bodies, triggers absent/1-bit/multi-bit, format strings from the "
         "grammar [[fill]align][sign][#][0][width][_][d|x|X|b|o] and [[fill]align][width]s with literal text incl. "
-        "{{ }} % and non-ASCII, auto or explicit argument numbering; a minimum level and a namespace pattern; a trace of "
+        "{{ }} % %d %s %% %(x)s and non-ASCII (also inside `s` fields), auto or explicit argument numbering; a minimum level and a namespace pattern; a trace of "
         "condition/request/trigger/field values; in `pyquiet` cases additionally a Python-side logging configuration "
         "(logging.disable, namespace logger levels) that drops the messages of a forced ERROR-level record); non-trivial = a cycle with >= 2 messages, a record with holding trigger "
         "silenced by its context, and a format chunk present"
